@@ -17,6 +17,18 @@ import (
 
 func init() { reg("C14", C14) }
 
+// writerFunc and taggedWriter: Loggers whose dynamic types are not comparable.
+type writerFunc func([]byte) (int, error)
+
+func (f writerFunc) Write(p []byte) (int, error) { return f(p) }
+
+type taggedWriter struct {
+	w    *countWriter
+	tags []string
+}
+
+func (t taggedWriter) Write(p []byte) (int, error) { return t.w.Write(p) }
+
 type traceLine struct {
 	bank    byte
 	pc      uint16
@@ -409,17 +421,28 @@ func C14(r *vf.Run) {
 				var panB interface{}
 				// single-step B to capture pre-step states for the line checks
 				var pres []ref.State
-				consumed := uint64(0)
-				for consumed < budget {
-					if B.s.GetPC() == target {
-						break
+				// the run is one RunUntil call, or two or three consecutive calls on the same System
+				// (a front-end running frame by frame)
+				budgets := []uint64{budget}
+				switch g.Intn(3) {
+				case 0:
+					budgets = []uint64{budget / 2, budget - budget/2}
+				case 1:
+					budgets = []uint64{budget / 3, budget / 3, budget - 2*(budget/3)}
+				}
+				for _, b := range budgets {
+					consumed := uint64(0)
+					for consumed < b && panB == nil {
+						if B.s.GetPC() == target {
+							break
+						}
+						pres = append(pres, absPrim(&B.s.CPU))
+						var c int
+						if panB = vf.Try(func() { c, _ = B.s.CPU.Step() }); panB != nil {
+							break
+						}
+						consumed += uint64(c)
 					}
-					pres = append(pres, absPrim(&B.s.CPU))
-					var c int
-					if panB = vf.Try(func() { c, _ = B.s.CPU.Step() }); panB != nil {
-						break
-					}
-					consumed += uint64(c)
 				}
 				B.s.CPU.OnPC = nil
 				if panB != nil {
@@ -438,6 +461,16 @@ func C14(r *vf.Run) {
 					bw = bufio.NewWriterSize(cw, []int{16, 64, 100, 128, 200, 512, 4096, 65536}[g.Intn(8)])
 					A.s.Logger = bw
 					kind = "bufio"
+				} else if g.Intn(3) == 0 {
+					// ... or a function adapter, or a small struct passed by value (types whose values cannot be compared)
+					cw = &countWriter{keep: true}
+					if g.Bool() {
+						A.s.Logger = writerFunc(cw.Write)
+						kind = "func-adapter"
+					} else {
+						A.s.Logger = taggedWriter{w: cw, tags: []string{"trace"}}
+						kind = "value-struct"
+					}
 				} else if g.Bool() {
 					cw = &countWriter{keep: true}
 					A.s.Logger = cw
@@ -450,7 +483,11 @@ func C14(r *vf.Run) {
 				}
 				installHooks(&A.s.CPU, plan, pendingAtEntry, int(budget)+64)
 				ma.Limit = (int(budget) + 64) * 24
-				panA := vf.Try(func() { A.s.RunUntil(target, budget) })
+				panA := vf.Try(func() {
+					for _, b := range budgets {
+						A.s.RunUntil(target, b)
+					}
+				})
 				ma.Limit = 0
 				A.s.CPU.OnPC = nil
 				if bw != nil {
@@ -793,7 +830,7 @@ func C14(r *vf.Run) {
 		for op := 0; op < 256; op++ {
 			r.Require(fmt.Sprintf("line:op%02x:e0:mx0%s", op, map[bool]string{true: ":backward", false: ""}[ref.Table[op].Mode == ref.Rel8]))
 		}
-		for _, c := range []string{"twin:writer", "twin:reserver", "twin:bufio", "twin:cpualt", "twin:ended-at-target-with-interrupt-pending", "twin:with-callbacks-or-interrupts", "real:rom", "real:wram", "real:wram-low-mirror", "real:sram", "real:register-window", "real:next-to-a-hole", "line:opd0:e0:mx3:forward", "line:op80:e1:mx3:backward"} {
+		for _, c := range []string{"twin:writer", "twin:reserver", "twin:bufio", "twin:func-adapter", "twin:value-struct", "twin:cpualt", "twin:ended-at-target-with-interrupt-pending", "twin:with-callbacks-or-interrupts", "real:rom", "real:wram", "real:wram-low-mirror", "real:sram", "real:register-window", "real:next-to-a-hole", "line:opd0:e0:mx3:forward", "line:op80:e1:mx3:backward"} {
 			r.Require(c)
 		}
 	}
